@@ -229,10 +229,109 @@ class Discharger:
             if d is None or d[0] != "st" or d[3]["k"] != "=" or d[3]["rv"]["k"] != "use":
                 return p
             q = op_place(d[3]["rv"]["op"])
-            if q is None:
+            if q is None or q["p"]:
                 return p
             p = q
         return p
+
+    def eval_const(self, op, depth=8):
+        """integer value of an operand if it folds from literals through copies,
+        arithmetic and `.0` of checked arithmetic; else None"""
+        c = const_operand(op)
+        if c is not None:
+            return c
+        p = op_place(op)
+        if p is None or depth <= 0:
+            return None
+        proj = p["p"]
+        d = self.defs.single(p["l"])
+        if d is None or d[0] != "st" or d[3]["k"] != "=":
+            return None
+        rv = d[3]["rv"]
+        if not proj:
+            if rv["k"] == "use":
+                return self.eval_const(rv["op"], depth - 1)
+            if rv["k"] == "bin" and not rv["op"].endswith("WithOverflow"):
+                return self._fold(rv["op"], self.eval_const(rv["a"], depth - 1), self.eval_const(rv["b"], depth - 1))
+            if rv["k"] == "cast" and rv["ck"] == "IntToInt":
+                v = self.eval_const(rv["op"], depth - 1)
+                rng = INT_RANGE.get(rv["ty"])
+                if v is not None and rng and rng[0] <= v <= rng[1]:
+                    return v
+            if rv["k"] == "un" and rv["op"] == "Neg":
+                v = self.eval_const(rv["a"], depth - 1)
+                return -v if v is not None else None
+            return None
+        if len(proj) == 1 and isinstance(proj[0], dict) and proj[0].get("f") == 0 and rv["k"] == "bin" and rv["op"].endswith("WithOverflow"):
+            return self._fold(rv["op"].replace("WithOverflow", ""), self.eval_const(rv["a"], depth - 1), self.eval_const(rv["b"], depth - 1))
+        return None
+
+    @staticmethod
+    def _fold(op, a, b):
+        if a is None or b is None:
+            return None
+        try:
+            return {"Add": a + b, "Sub": a - b, "Mul": a * b, "Shl": a << b if 0 <= b < 128 else None, "Shr": a >> b if 0 <= b < 128 else None,
+                    "BitAnd": a & b, "BitOr": a | b, "BitXor": a ^ b}.get(op)
+        except Exception:
+            return None
+
+    def folded_const_rule(self, site):
+        """K3 whose operands fold to constants through local arithmetic; K4 pow with constant arguments"""
+        if site.kind == "K3":
+            vals = [self.eval_const(o) for o in site.node["ops"]]
+            if any(v is None for v in vals):
+                return None
+            ak = site.what
+            tyop = site.node["ops"][0]
+            p = op_place(tyop)
+            ty = self.fn.local_ty(p["l"]) if p is not None and not p["p"] else tyop.get("c", {}).get("ty")
+            rng = INT_RANGE.get(ty)
+            if ak.startswith("Overflow:") and rng and len(vals) == 2:
+                r = self._fold(ak.split(":")[1], vals[0], vals[1])
+                if r is not None and rng[0] <= r <= rng[1]:
+                    return "const: operands fold to %s, result %d fits %s" % (vals, r, ty)
+            if ak == "OverflowNeg" and rng and -vals[0] <= rng[1]:
+                return "const: negation of the constant %d" % vals[0]
+            if ak == "BoundsCheck" and 0 <= vals[1] < vals[0]:
+                return "const: index %d < length %d" % (vals[1], vals[0])
+        if site.kind == "K4" and site.what.startswith("int-op:") and site.what.endswith("::pow|") is False and "::pow" in site.what:
+            args = site.node["args"]
+            if len(args) == 2:
+                a, b = self.eval_const(args[0]), self.eval_const(args[1])
+                p = op_place(site.node["dest"])
+                ty = self.fn.local_ty(site.node["dest"]["l"])
+                rng = INT_RANGE.get(ty)
+                if a is not None and b is not None and rng and 0 <= b < 200 and rng[0] <= a ** b <= rng[1]:
+                    return "const: %d.pow(%d) fits %s" % (a, b, ty)
+        return None
+
+    def split_checked_rule(self, site):
+        """`<[u8; N]>::try_from(head).unwrap()` where head is the first half of `split_at_checked(N)` on its Some arm"""
+        if site.kind != "K2":
+            return None
+        call = self._producer_call(site.node["args"][0])
+        if call is None:
+            return None
+        n = strip_generics(callee_name(call) or "")
+        if not (n.endswith("try_into") or n.endswith("try_from")):
+            return None
+        arg_ty = self.fn.local_ty(op_place(site.node["args"][0])["l"])
+        m = re.match(r"core::result::Result<\[\w+; (\w+)\], core::array::TryFromSliceError>", arg_ty)
+        if not m:
+            return None
+        want = m.group(1)
+        og = self.flow.operand_origins(call["args"][0])
+        if not any(k == "call" and v and strip_generics(v).endswith("split_at_checked") for k, v in og):
+            return None
+        for bi, t in self.fn.calls():
+            if strip_generics(callee_name(t) or "").endswith("split_at_checked"):
+                a = t["args"][1]
+                txt = a.get("c", {}).get("text", "")
+                val = const_operand(a)
+                if (txt == want or txt == "const %s" % want or (val is not None and str(val) == want)) and bi in self.dom.get(site.bb, ()):
+                    return "guard: slice is the head of split_at_checked(%s) on its Some arm, so it has exactly %s elements" % (want, want)
+        return None
 
     # ---- rules -----------------------------------------------------
     def cond_rule(self, site):
